@@ -284,18 +284,13 @@ def mutate(rng, vals, dom):
 
 # Operators that have to wait for a fix before they can be put on a re-entrant source (see fixes/C06_reentrant_*.patch):
 # their handlers make two downstream calls (`on_next(result); on_completed()`) and a re-entered handler emits a second result.
-# PENDING_FIX gate: first_or_default_async_ (first / first_or_default), some_ (some / all / contains / is_empty) and sequence_equal
-# emit `on_next(result); on_completed()` without recording the decision first: an element fed back from inside the subscriber's
-# on_next re-enters the handler and a second result is emitted (replays/C06_reentrant_*.json; fixes/C06_reentrant_{first,some,
-# sequence_equal}.patch).  Until the lead applies the patches these operators are kept off the re-entrant source;
-# VERIF_C06_REENTRANT_ALL=1 lifts the gate (use it with VERIF_REPO=<tree with the patches>).
-REENTRANT_PENDING_FIX = {"first", "first_or_default", "some", "all", "contains", "is_empty", "sequence_equal"}
+# Operators that have to wait for a fix before they can be put on a re-entrant source (none: first / first_or_default, some / all /
+# contains / is_empty and sequence_equal were fixed by ace7822 / 13a6126 / 818e2bd - they now record the decision before emitting it).
+REENTRANT_PENDING_FIX = set()
 
 
 def reentrant_skip():
-    import os
-
-    return set() if os.environ.get("VERIF_C06_REENTRANT_ALL") == "1" else REENTRANT_PENDING_FIX
+    return REENTRANT_PENDING_FIX
 
 
 def cases(rng, tier):
@@ -837,6 +832,6 @@ LEVEL_NOTE = ("Theorems: scan, reduce(seed / no seed), count(+pred), sum(+key), 
               "TypeError raised into the emitter, element skipped). Correspondence-only: min/max/min_by/max_by with arbitrary "
               "(non-preorder) or raising comparers beyond the fold identity, sequence_equal with an asymmetric comparer (the code passes the queued "
               "value first on both sides, so the result then depends on the interleaving), float inputs. Re-entrant sources (a handler re-entered from inside its downstream call) are outside the atomic-handler model: "
-              "oracle-only (feedback mode); first/first_or_default/some/all/contains/is_empty/sequence_equal are gated there until "
-              "fixes/C06_reentrant_*.patch are applied. Composition `⨾` is exact when the downstream "
+              "oracle-only (feedback mode); the Lean models of first / some / sequence_equal carry the repaired done/decided flag (raw-mode handlers stop "
+              "emitting after the decision). Composition `⨾` is exact when the downstream "
               "operator's handlers do not raise (proved in C09 for this family).")
